@@ -520,6 +520,7 @@ def run(ctx):
     timing['real_code'] = round(time.time() - t1, 1)
     traces = []
     seen = set()
+    found = []                                             # (clause, case, tags, detail)
     for tid, (case, events, mism) in enumerate(results):
         cases[tid] = case                                  # raw behaviours were parsed in the workers
         ctx.evaluated()
@@ -529,8 +530,8 @@ def run(ctx):
             key = (tid, 'ReplayState', m['mode'])
             if key not in seen:
                 seen.add(key)
-                ctx.violation('ReplayState', case, tags={'src': case['src'], 'mode': m['mode'],
-                                                         'spgiven': case['spgiven']}, detail=m)
+                found.append(('ReplayState', case, {'src': case['src'], 'mode': m['mode'],
+                                                    'spgiven': case['spgiven']}, m))
         traces.append((tid, events))
         if tid % 487 == 0:
             ctx.sample({k: case[k] for k in ('src', 'ph', 'sp', 'rx', 'ia', 'spgiven', 'ops')}, cap=6)
@@ -549,9 +550,18 @@ def run(ctx):
         by_case.setdefault((tid, clause, where), []).append(idx)
     for (tid, clause, where), idxs in sorted(by_case.items()):
         ev = traces[tid][1][idxs[0]]
-        ctx.violation(clause, cases[tid],
-                      tags={'src': cases[tid]['src'], 'mode': where, 'spgiven': cases[tid]['spgiven']},
-                      detail={'event_indices': idxs[:10], 'event': ev})
+        found.append((clause, cases[tid],
+                      {'src': cases[tid]['src'], 'mode': where, 'spgiven': cases[tid]['spgiven']},
+                      {'event_indices': idxs[:10], 'event': ev}))
+    # report clause by clause in turn, so that the first replay files printed cover every failing clause
+    queues = {}
+    for f in found:
+        queues.setdefault((f[0], f[2]['mode']), []).append(f)
+    while queues:
+        for k in sorted(queues):
+            ctx.violation(*queues[k].pop(0))
+            if not queues[k]:
+                del queues[k]
     ctx.assume('reactions are pairwise unequal under pmutt\'s own equality (to_dict without the id); '
                'BEPs are named and only used by reactions with an interface species')
     ctx.assume('every phase a species names is described; a reaction names at most one interface, or only '
